@@ -57,6 +57,12 @@ def scenario_steps(rng, kind, reloads):
         for _ in range(rng.randint(3, 6)):
             st.append({"sleep": rng.choice([0.3, 0.6, 1.0]), "post": rng.choice(["change-query(x)", "change-query(ab)", "clear-query", "put(y)",
                                                                                  "toggle-sort", "backward-delete-char", "change-query(xy)"])})
+    elif kind == "reload-same-count":
+        # a reload whose first burst brings exactly as many lines as the old input had, with a query typed while the
+        # new input is still empty (the matcher's result cache must not outlive the input it was filled for)
+        add("change-query(%s)" % rng.choice(["x", "y", "ab"]))
+        st.append({"sleep": 0, "post": "RELOAD0"})
+        st.append({"sleep": 0.15, "post": "change-query(%s)" % rng.choice(["z", "xy", "a"])})
     elif kind == "reload-race":
         # a reload immediately followed by another query-changing action while input is still streaming in
         add("change-query(%s)" % rng.choice(["x", "y", "a", ""]))
@@ -200,7 +206,13 @@ def run_session(ctx, fzf, sid, lines, sched, steps, extra_args=(), width=70, hei
         s.wait_for(quiet, timeout=120, what="input end + all actions processed")
         t0 = time.time()
         while True:
-            s.wait_trace_quiet(quiet=0.4, timeout=120)
+            try:
+                s.wait_trace_quiet(quiet=0.4, timeout=120)
+            except Infra as ex:
+                st = s.get()
+                raise Infra("session %d: %s; state: %s; steps: %s; args: %s" % (
+                    sid, ex, json.dumps({k: st.get(k) for k in ("reading", "totalCount", "matchCount", "query")} if st else None),
+                    json.dumps([x["post"][:60] for x in steps]), list(extra_args)))
             st = s.get()
             if st is None:
                 raise Infra("GET / failed at quiescence")
